@@ -138,14 +138,20 @@ func c15Cause(c *c15Case, metric string) string {
 			minD, maxD = math.Min(minD, d), math.Max(maxD, d)
 		}
 	}
+	sa, sb := 0.0, 0.0
+	for i := range c.A {
+		x, y := float64(math.Float32frombits(c.A[i])), float64(math.Float32frombits(c.B[i]))
+		sa += x * x
+		sb += y * y
+	}
 	switch metric {
 	case "cosine":
 		switch {
 		case az || bz:
 			return "zero-vector"
-		case maxAbs >= 1e15:
-			return "norm-overflow"
-		case maxAbs <= 1e-15:
+		case maxAbs >= 1e15 || sa*sb >= 1e38 || sa >= 1e38 || sb >= 1e38:
+			return "norm-overflow" // the squared norms, or their product, leave the binary32 range
+		case maxAbs <= 1e-15 || sa*sb <= 1e-37 || sa <= 1e-37 || sb <= 1e-37:
 			return "norm-underflow"
 		}
 	case "manhattan":
